@@ -159,7 +159,10 @@ def runsOK (omitted : String) : Bool := omitted.startsWith "exit=0\n"
 /-- end to end: an invocation that differs from another one only by options given non-default
     values succeeds and gives another outcome — the command really reads what the option sets.
     (Without it "omitted = explicit default" also holds for a command that ignores the option and
-    uses some other value than the documented one.) -/
+    uses some other value than the documented one.)  This is NOT a clause of the property — the
+    property does not say that options have an effect — but the assumption under which the parse
+    model (`setFlag`/`reads`) speaks about a command; the driver reports its failure as a broken
+    tie (TIE), not as a violation. -/
 def effectOK (withOptions base : String) : Bool := runsOK withOptions && runsOK base && withOptions != base
 
 /-- end to end: the observable outcome (exit class, stdout, files written) with the option omitted
